@@ -109,6 +109,13 @@ func pkgSnapshot() *deep.Snapshot {
 }
 
 func (c *Case) Exec(t *eng.T) {
+	// package-level variables are compared from before the first execution of this case (a warm-up compilation
+	// comes first: compiling may legitimately initialise process-wide state once)
+	if warm, _ := c.compile(); warm == nil {
+		t.Skip()
+		return
+	}
+	pkgBefore := pkgSnapshot()
 	// reference: a freshly compiled template per context
 	fresh := make([]string, len(ctxNames))
 	for i := range ctxNames {
@@ -123,7 +130,6 @@ func (c *Case) Exec(t *eng.T) {
 	t.Nontrivial()
 	tpl, _ := c.compile()
 	before := deep.Take(roots(tpl))
-	pkgBefore := pkgSnapshot()
 	t.AddStates(1)
 	for step, ci := range c.History {
 		got := px.Exec(tpl, mkCtx(ci)).String()
@@ -205,7 +211,9 @@ func programs() []prog {
 		{name: "firstof", src: `{% firstof missing s n %}`},
 		{name: "widthratio", src: `{% widthratio n 3 100 %}{% widthratio n 3 100 as w %}{{ w }}`},
 		{name: "ifequal", src: `{% ifequal n 1 %}e{% else %}ne{% endifequal %}{% ifnotequal s "a" %}x{% endifnotequal %}`, body: func(in string) string { return "{% ifequal n 1 %}" + in + "{% else %}" + in + "{% endifequal %}" }},
-		{name: "ifchanged-body", src: ``, body: func(in string) string { return "{% for i in l %}{% ifchanged %}" + in + "{% endifchanged %}{% endfor %}" }},
+		{name: "ifchanged-body", src: ``, body: func(in string) string {
+			return "{% for i in l %}{% ifchanged %}" + in + "{% endifchanged %}{% endfor %}"
+		}},
 		{name: "templatetag", src: `{% templatetag openblock %}`},
 		{name: "now", src: `{% now "2006-01-02" fake %}`},
 		{name: "lorem", src: `{% lorem 3 w %}`},
@@ -215,6 +223,12 @@ func programs() []prog {
 		{name: "filters", src: `{{ s|center:5 }}{{ l|join:"-" }}{{ l|slice:"1:" }}{{ s|default:"d"|capfirst }}{{ n|add:l.0 }}`},
 		{name: "calls", src: `{{ cf1(n) }}{{ cf3(n, s, 3) }}{{ cf5(1, 2, 3, 4, n) }}{{ cf7(1, 2, 3, 4, 5, 6, n) }}{{ cfv(1, n, 3) }}{{ f2(n, 2) }}{{ cf3(1, "x", n) }}`},
 		{name: "whitespace", src: "\n\nX\n{% if flag %}\nY\n{% endif %}\n  {% set z = 1 %}  \nZ\n\t{% for i in l %}\n i{{ i }} \n\t{% endfor %}\n"},
+		{name: "filter-error-pluralize", src: "{% if flag %}{{ s|pluralize }}{% else %}\n\n   {{ s|pluralize }}{% endif %}"},
+		{name: "filter-error-date", src: "{% if flag %}{{ n|date:\"2006\" }}{% else %}\n {{ s|date:\"2006\" }}{% endif %}"},
+		{name: "filter-error-slice", src: "{% if flag %}{{ l|slice:\"x\" }}{% else %}\n\n\n{{ l|slice:\"1:2:3\" }}{% endif %}"},
+		{name: "filter-error-pluralize-args", src: "{% if flag %}{{ n|pluralize:\"a,b,c\" }}{% else %}\n\n {{ n|pluralize:\"a,b,c\" }}{% endif %}"},
+		{name: "macro-deep", src: "{% macro r(k) %}{% if k > 0 %}{{ r(k - 1) }}{% endif %}{% endmacro %}{{ r(600) }}{{ n }}"},
+		{name: "import-deep", src: "{% import \"deeplib\" r %}{{ r(600) }}{{ n }}", files: map[string]string{"/deeplib": "{% macro r(k) export %}{% if k > 0 %}{{ r(k - 1) }}{% endif %}{% endmacro %}"}},
 		{name: "whitespace-dash", src: " a \n{%- if flag -%}\n b \n{%- endif %}\n{{- n -}}\n c "},
 	}
 }
@@ -295,7 +309,7 @@ func init() {
 	eng.Register(&eng.Check{
 		ID:    "C04",
 		Title: "Compile once, render many: execution never alters the compiled template",
-		Rule: "explicit-state exploration of execution histories: for every generated program and option setting the template is compiled once and EVERY history of executions up to the length bound over a 4-context alphabet (two succeeding contexts driving different branches and lengths, one failing mid-way, nil) is run on it. State = canonical deep snapshot (reflect+unsafe walk of everything reachable from the *Template: nodes, tokens, blocks, macros, set, parents, children, included templates). Invariant: the state after every execution equals the state before the first; differential oracle from non-initial states: (output, error) of each execution equals that of a freshly compiled template on the same context. states = compiled templates explored, transitions = executions. Non-trivial: the program compiles.",
+		Rule:  "explicit-state exploration of execution histories: for every generated program and option setting the template is compiled once and EVERY history of executions up to the length bound over a 4-context alphabet (two succeeding contexts driving different branches and lengths, one failing mid-way, nil) is run on it. State = canonical deep snapshot (reflect+unsafe walk of everything reachable from the *Template: nodes, tokens, blocks, macros, set, parents, children, included templates). Invariant: the state after every execution equals the state before the first; differential oracle from non-initial states: (output, error) of each execution equals that of a freshly compiled template on the same context. states = compiled templates explored, transitions = executions. Non-trivial: the program compiles.",
 		Assumptions: []string{
 			"constructs documented to depend on clock, randomness or map order are used only in deterministic forms (now fake, lorem without random, no multi-key unsorted maps)",
 			"the quantifier's clause 'statically: all functions reachable from Execute' is static analysis (another family): not covered",
